@@ -220,15 +220,24 @@ def run_C17(tier, seed):
         for name, builder in BUILDERS.items():
             for (rm, rj) in (options if tier == "thorough" else options[:1] + [rng.choice(options[1:])]):
                 # walk several random maximal histories step by step
-                for _ in range(3 if tier == "quick" else 10):
-                    inst = build_instance(jobs)
-                    d = Dispatcher(inst)
-                    g = builder(inst)
-                    upd = ResidualGraphUpdater(d, g, remove_completed_machine_nodes=rm,
-                                               remove_completed_job_nodes=rj)
+                for walk in range(3 if tier == "quick" else 10):
+                  inst = build_instance(jobs)
+                  d = Dispatcher(inst)
+                  g = builder(inst)
+                  upd = ResidualGraphUpdater(d, g, remove_completed_machine_nodes=rm,
+                                             remove_completed_job_nodes=rj)
+                  # every third walk goes on after a reset: "every history" includes second and third episodes on the
+                  # same dispatcher, updater and graph (the first of them possibly cut short)
+                  episodes = [None] if walk % 3 else [rng.randint(1, sum(len(j) for j in jobs)), None, None]
+                  failed = False
+                  for ep, cut in enumerate(episodes):
+                    if failed:
+                        break
+                    if ep:
+                        d.reset()
                     model = Model(jobs)
                     prev_removed = set()
-                    while model.legal():
+                    while model.legal() and (cut is None or model.n < cut):
                         j, m = rng.choice(model.legal())
                         d.dispatch(inst.jobs[j][model.k[j]], m)
                         model.apply(j, m)
@@ -268,8 +277,10 @@ def run_C17(tier, seed):
                             left = [(n.node_type.name, n.node_id) for n in graph.nodes if n.node_id not in removed]
                             problems.append(f"schedule complete but nodes remain: {left[:5]}")
                         if problems:
-                            res.breach("residual-graph-invariants", f"{name} rm={rm} rj={rj}: {problems[0]}", jobs=jobs,
-                                       history=model.history, builder=name, options=(rm, rj))
+                            res.breach("residual-graph-invariants", f"{name} rm={rm} rj={rj}: {problems[0]}"
+                                       + (f" (episode {ep + 1} on the same dispatcher, after reset)" if ep else ""),
+                                       jobs=jobs, history=model.history, builder=name, options=(rm, rj), episode=ep + 1)
+                            failed = True
                             break
         res.sample({"jobs": jobs})
     return res
